@@ -384,6 +384,7 @@ def run(ctx):
     r = ctx.rule("R08.6", "unmappable characters and atomicity: validated setters encode with *_without_replacements, and every field write is dominated by the Ok edge of validation (a rejected call leaves the token unchanged); inserted content is only ever encoded in an ASCII-compatible encoding (constructor discipline of AsciiCompatibleEncoding, shared with C13 R13.1)", "E-MIR dominance", floor=3)
     from .c13 import clause_ascii_compatible_ctor
     clause_ascii_compatible_ctor(r, mir)
+    sm.clause_rewrite_str_plumbing(r, mir)
     for nm, enc_in, writes in (("Comment::set_text", "Comment::set_text", [("Comment", "text")]),
                               ("Element::set_tag_name", "Element::tag_name_bytes_from_str", [("Element", "modified_end_tag_name")]),
                               ("Attributes::set_attribute", "Attribute::name_from_string", [])):
@@ -436,6 +437,11 @@ def run(ctx):
     # bail-out content is inserted text too: it must come before the raw remainder (which may end inside a tag or comment)
     from .c11 import rule_bail_out_sites
     rule_bail_out_sites(ctx, mir, rid="R08.8")
+
+    # ------------------------------------------------------------------ R08.9 (shared with C07 R07.4)
+    # inserted content must not be overwritten afterwards: the element's own end-tag edits are applied before user handlers
+    from .c07 import rule_edits_not_lost
+    rule_edits_not_lost(ctx, mir, rid="R08.9")
 
     ctx.not_decided += ["differences between lol-html's tokenizer and other HTML parsers beyond C03", "decoding of the output under another encoding than the document's (cross-encoding confusion)"]
     return ("Writer/reader agreement decided as language inclusions between the serialiser's reject/escape sets (read from the expanded source) and the "
